@@ -24,6 +24,23 @@ def graph_runs(stmts: list) -> int:
     return runs
 
 
+XSD_PLAIN_CONSTRUCT = "pyjelly.serialize.encode.encode_spo:repeated-term-equality:xsd-string-vs-plain"
+_SLOT = {"subject": 0, "predicate": 1, "object": 2, "graph": 3, "s": 0, "p": 1, "o": 2, "g": 3}
+
+
+def xsd_vs_plain(stmts: list, slot: str, term: tuple) -> bool:
+    """The specific known defect: the term written again is a literal without language tag whose lexical form occurs in
+    that slot of the input both as a plain literal and typed xsd:string (one term on the wire and in RDF 1.1, two
+    unequal objects for the term libraries' ==, which is what the elision compares)."""
+    from ..freeze import freeze
+
+    idx = _SLOT.get(slot.split("_")[0], _SLOT.get(slot[:1]))
+    if idx is None or not (isinstance(term, tuple) and len(term) == 4 and term[0] == "lit" and term[2] is None and term[3] is None):
+        return False
+    same_lex = [st[idx] for st in stmts if len(st) > idx and st[idx][0] == "lit" and st[idx][2] is None and freeze(st[idx][1]) == term[1]]
+    return any(t[3] is None for t in same_lex) and any(t[3] == P.XSD_STRING for t in same_lex)
+
+
 def extra_jobs() -> list[dict]:
     """Streams whose compression depends on sites other than s/p/o of a plain statement."""
     from ..values import Atom, sstr
@@ -72,7 +89,7 @@ def check(chk: Check) -> None:
 
     inv = tunables.inventory(chk.program)
     hit: set[str] = set()
-    for res in pmap(pipejob.run, jobs):
+    for job_in, res in zip(jobs, pmap(pipejob.run, jobs)):
         if res is None:
             continue
         chk.functions.update(res["funcs"])
@@ -90,7 +107,10 @@ def check(chk: Check) -> None:
             else:
                 chk.ok(r1, inst, {"entries": a["entries"]})
             if a["missed_elisions"]:
-                chk.fail(r2, inst, "pyjelly.serialize.encode:missed-elision", f"{a['missed_elisions'][0]} ({jb['name']}, {cfg})")
+                construct = "pyjelly.serialize.encode:missed-elision"
+                if all(xsd_vs_plain(job_in["stmts"], slot, term) for slot, term in zip(a["missed_elision_slots"], a["missed_elision_terms"])):
+                    construct = XSD_PLAIN_CONSTRUCT
+                chk.fail(r2, inst, construct, f"{a['missed_elisions'][0]} ({jb['name']}, {cfg})")
             else:
                 chk.ok(r2, inst, {"elided_terms": a["elided"]})
             if a["missed_zero"]:
